@@ -97,6 +97,14 @@ mut('C09-size-from-unused-handle', (P + 'dumpers/file_dumper.py', "        temp_
 mut('C09-existing-descriptor-kept', ('dataflows/processors/dumpers/to_path.py', "        hashed = self.add_filehash_to_path and self.resource_hash and os.path.basename(path) != 'datapackage.json'\n", "        hashed = self.add_filehash_to_path\n"))
 mut('C09-package-rowcount-across-runs', (P + 'dumpers/dumper_base.py', "        DumperBase.inc_attr(self.datapackage.descriptor, self.datapackage_rowcount, counter)\n",
      "        self.total_rows = getattr(self, 'total_rows', 0) + counter\n        DumperBase.set_attr(self.datapackage.descriptor, self.datapackage_rowcount, self.total_rows)\n"))
+# ---- a change that introduces a thread of its own (ambient thread seam): lines are written by a background writer;
+# the end-of-stream marker is queued but the writer is not joined before the file is published
+mut('C07-stream-background-writer',
+    (P + 'stream.py', "import sys\nimport os\n", "import sys\nimport os\nimport queue\nimport threading\n"),
+    (P + 'stream.py', "    def write(obj):\n        file.write(ejson.dumps(obj, sort_keys=True, ensure_ascii=True)+'\\n')\n        file.flush()\n",
+     "    lines = queue.Queue()\n\n    def writer():\n        while True:\n            line = lines.get()\n            if line is None:\n                break\n            file.write(line)\n            file.flush()\n\n    def write(obj):\n        lines.put(ejson.dumps(obj, sort_keys=True, ensure_ascii=True)+'\\n')\n"),
+    (P + 'stream.py', "        write(package.pkg.descriptor)\n        yield package.pkg\n        for res in package:\n            yield res_writer(res)\n            file.write('\\n')\n        file.close()\n",
+     "        worker = threading.Thread(target=writer, daemon=True)\n        worker.start()\n        write(package.pkg.descriptor)\n        yield package.pkg\n        for res in package:\n            yield res_writer(res)\n            lines.put('\\n')\n        lines.put(None)\n        worker.join(timeout=0.01)\n        file.close()\n"))
 
 
 def main():
